@@ -78,6 +78,21 @@ DATA_ROUTES = {
     'job_groups_v1': '/api/v1alpha/batches/{batch_id}/job-groups',
     'batches_v1': '/api/v1alpha/batches', 'batches_v2': '/api/v2alpha/batches',
 }
+# billing read routes: name -> (path template, match_info)
+BILLING_READS = {
+    'bp_list_api': ('/api/v1alpha/billing_projects', {}),
+    'bp_get_api:bp_x': ('/api/v1alpha/billing_projects/{billing_project}', {'billing_project': 'bp_x'}),
+    'bp_get_api:bp_alice_1': ('/api/v1alpha/billing_projects/{billing_project}', {'billing_project': 'bp_alice_1'}),
+    'bp_get_api:bp_carol': ('/api/v1alpha/billing_projects/{billing_project}', {'billing_project': 'bp_carol'}),
+    'bp_get_api:nope': ('/api/v1alpha/billing_projects/{billing_project}', {'billing_project': 'nope'}),
+    'bp_list_ui': ('/billing_projects', {}),
+    'billing_ui': ('/billing', {}),
+    'limits_ui': ('/billing_limits', {}),
+}
+# caller -> (username, is_developer, is_service_account, billing projects the account belongs to)
+BILLING_WHO = {'alice': ('alice', 0, 0, {'bp_alice_1'}), 'bob': ('bob', 0, 0, {'bp_alice_1', 'bp_auth_1', 'bp_x'}), 'carol': ('carol', 0, 0, {'bp_carol'}),
+               'developer': ('dave', 1, 0, {'bp_dave'}), 'auth': ('auth', 0, 1, {'bp_auth_1'}), 'service-account': ('ci', 0, 1, set()),
+               'nobody': ('erin', 0, 0, set())}
 STATE_WORDS = ['pending', 'ready', 'creating', 'running', 'live', 'cancelled', 'error', 'failed', 'bad', 'success', 'done']
 LISTINGS = ['/api/v1alpha/batches', '/api/v2alpha/batches', '/api/v1alpha/batches/completed']
 KEY_CI = 'username filters on batches.user / billing_project_users.user are case-insensitive: a namesake account passes them'
@@ -114,7 +129,9 @@ class C14(Prop):
                   'patched time.monotonic_ns. Data level: the real job / job-group / batch list handlers run over minisql with two tenants\' data '
                   'and queries drawn from the v1 and v2 query grammars (every state keyword, negations, has:, key=value, ids); every returned '
                   'row must belong to the requested batch / to a billing project of the caller (listed_jobs_belong_to_batch for the model of '
-                  'the WHERE clause).')
+                  'the WHERE clause). The billing read routes (billing project list / single project API, the billing projects, billing '
+                  'usage and billing limits pages) run with their real bodies for members, non-members, developers, the auth service and '
+                  'other service accounts; every billing project / usage row in the answer must be one the caller may read.')
     level_note = ('PARTIAL for the owner-only mutators: `mutate` is a hand model of which check comes first, tied to the real handlers only by '
                   'the 39 scenario runs over minisql (MySQL itself is not available; the deprecated close_batch answers 500 to every caller on the current schema — Unknown column job_groups.deleted — so its owner case is not run). The decorator semantics (`guard`) are tied by exhaustive '
                   'differential runs (68 routes x 256 callers, plus name-sake variants and billing-administration requests with real bodies + DB diff) with the session lookup stubbed at Authenticator._fetch_userdata and aiohttp '
@@ -128,6 +145,8 @@ class C14(Prop):
                'harness/minisql executing the repo\'s SQL in place of MySQL', 'aiohttp.test_utils.make_mocked_request as the request',
                'closure-cell patching to put a probe in place of the innermost handler body',
                'harness/svcenv.py + minisql/env.py: env vars / global-config read at import',
+               'UI pages: web_common.render_template replaced in batch.front_end by a function that answers the page context as JSON',
+               'minisql JSON_QUOTE / JSON_CONTAINS (added for the billing queries; unit-tested in harness/minisql/tests_minisql.py against the MySQL manual\'s rules)',
                'session schedules: aiohttp_session.get_session replaced by an empty session (the id travels as Bearer token), the auth service is a fake httpx client, time.monotonic_ns is the schedule clock']
     assumptions = ['the session lookup (_fetch_userdata / auth service) returns the true userdata of the caller',
                    'aiohttp dispatches a request only to the handler object registered for its method and path',
@@ -183,6 +202,11 @@ class C14(Prop):
         fake_as.get_session = get_session
         ga.aiohttp_session = fake_as
         self.ga = ga
+
+        # UI pages: the template engine is replaced, the page context (the data the page shows) is what the handler answers
+        async def render_template(service, request, userdata, file, page_context, **kw):
+            return web.json_response({'template': file, 'page_context': json.loads(json.dumps(page_context, default=str))})
+        fe.render_template = render_template
 
         # real route table
         self.real = {}
@@ -292,6 +316,13 @@ class C14(Prop):
             for i, stt in enumerate(states, 1):
                 db.execute('UPDATE jobs SET state = %s WHERE batch_id = %s AND job_id = %s', (stt, bid, i))
         db.execute('UPDATE batches SET time_completed = 1 WHERE id IN (%s, %s)', (self.A2, self.D))
+        import datetime as _dt
+        today = _dt.date.today()
+        usage = [('bp_alice_1', 'alice', 5_000_000), ('bp_alice_1', 'bob', 1_000_000), ('bp_x', 'bob', 7_000_000), ('bp_carol', 'carol', 2_000_000)]
+        db.load_rows('aggregated_billing_project_user_resources_v3',
+                     [dict(billing_project=b, user=u, resource_id=1, token=0, usage=n) for b, u, n in usage])
+        db.load_rows('aggregated_billing_project_user_resources_by_date_v3',
+                     [dict(billing_date=today, billing_project=b, user=u, resource_id=1, token=0, usage=n) for b, u, n in usage])
         self.snap_data = db.snapshot()
         # minisql must give AND precedence over OR (unit test of the interpreter on the shape the query builders produce)
         rows = db.query("SELECT batch_id, job_id FROM jobs WHERE batch_id = %s AND (jobs.state = %s) OR (jobs.state = %s)", (self.A2, 'Success', 'Failed'))
@@ -342,6 +373,9 @@ class C14(Prop):
                 yield {'kind': 'admin', 'route': key, 'who': who}
         for _ in range(400 if tier == 'quick' else 6000):
             yield {'kind': 'session', 'events': self.gen_schedule(rng)}
+        for route in BILLING_READS:
+            for who in BILLING_WHO:
+                yield {'kind': 'billing', 'route': route, 'who': who}
         # data level: every state keyword alone and negated on every job listing, then random queries from the grammars
         for route in ('jobs_v1', 'group_jobs_v1'):
             for w in STATE_WORDS:
@@ -432,7 +466,7 @@ class C14(Prop):
             return ['adm %d %d' % (c['who'] == 'developer', c['who'] == 'auth')]
         if c['kind'] == 'session':
             return ['sess %d %s' % (TTL_MS, ' '.join(c['events']))]
-        if c['kind'] == 'data':
+        if c['kind'] in ('data', 'billing'):
             return ['rows']
         if c['kind'] == 'list':
             return ['list %d %d' % (c['who'] in ('owner', 'mate'), c['who'] == 'namesake')]
@@ -671,6 +705,63 @@ class C14(Prop):
         self._cache[k] = res
         return res
 
+    def _billing(self, c):
+        k = json.dumps(c, sort_keys=True)
+        if k in self._cache:
+            return self._cache[k]
+        path_t, match = BILLING_READS[c['route']]
+        name, dev, sa, _ = BILLING_WHO[c['who']]
+        path = path_t
+        for kk, v in match.items():
+            path = path.replace('{%s}' % kk, str(v))
+        self.db.restore(self.snap_data)
+        self.passthrough = True
+        try:
+            req = self.mk('GET', path, match_info=dict(match), app=self.app)
+            self.cur_userdata = self.ud(name, dev=dev, sa=sa)
+            try:
+                resp = self.loop.run_until_complete(self.real[('GET', path_t)].handler(req))
+                res = (resp.status, json.loads(resp.body) if resp.body else None)
+            except self.web.HTTPException as e:
+                res = (e.status, None)
+            except Exception as e:
+                res = (500, {'error': f'{type(e).__name__}: {e}'})
+        finally:
+            self.passthrough = False
+        self._cache[k] = res
+        return res
+
+    def _billing_foreign(self, c):
+        """billing projects / usage rows in the answer that the caller may not see: a plain user sees the projects it belongs to and its
+        own usage; developers (and, for the project routes, the auth service) see everything"""
+        status, body = self._billing(c)
+        name, dev, sa, member_of = BILLING_WHO[c['who']]
+        if dev or body is None:
+            return []
+        sees_all_projects = name == 'auth'
+        bad = []
+
+        def walk(x):
+            if isinstance(x, dict):
+                bp = x.get('billing_project')
+                if isinstance(bp, str):
+                    if 'user' in x and isinstance(x['user'], str):
+                        if x['user'] != name:
+                            bad.append(('usage-of', x['user'], bp))
+                    elif bp not in member_of and not sees_all_projects:
+                        bad.append(('billing-project', bp, x.get('users')))
+                for v in x.values():
+                    walk(v)
+            elif isinstance(x, list):
+                for v in x:
+                    walk(v)
+        walk(body)
+        if isinstance(body, dict) and 'page_context' in body:
+            for r in body['page_context'].get('billing_by_user', []):
+                if r.get('user') != name:
+                    bad.append(('usage-of', r.get('user'), None))
+        return bad
+
     def _data_foreign(self, c):
         """rows of the answer the caller must not see"""
         status, body = self._data(c)
@@ -695,6 +786,9 @@ class C14(Prop):
             return [self._guard(c)[1]]
         if c['kind'] == 'data':
             bad = self._data_foreign(c)
+            return ['only-permitted-rows' if not bad else f'foreign-rows:{len(bad)}']
+        if c['kind'] == 'billing':
+            bad = self._billing_foreign(c)
             return ['only-permitted-rows' if not bad else f'foreign-rows:{len(bad)}']
         if c['kind'] == 'session':
             return [','.join(str(st) for _, st in self._session(c))]
@@ -732,6 +826,15 @@ class C14(Prop):
                         f'class {cls}')
             if not entered and writes:
                 return f'denied-but-wrote: {method} {path_t} ({r["handler"]}) refused [{who}] but executed {writes[0][:80]!r}'
+            return None
+        if c['kind'] == 'billing':
+            bad = self._billing_foreign(c)
+            if bad:
+                status, _ = self._billing(c)
+                path_t, match = BILLING_READS[c['route']]
+                name, dev, sa, member_of = BILLING_WHO[c['who']]
+                return (f'billing data leak: GET {path_t} {match} as {c["who"]} (username {name!r}, is_developer={dev}, member of '
+                        f'{sorted(member_of)}) answered {status} with billing projects / usage the caller may not read: {bad[:5]}')
             return None
         if c['kind'] == 'data':
             bad = self._data_foreign(c)
@@ -805,6 +908,9 @@ class C14(Prop):
             tags = ['guard:' + outcome, 'class:' + cls]
             nontrivial = outcome != 'allow' or cls != 'pub'
             return (json.dumps(c, sort_keys=True) if nontrivial else None, tags)
+        if c['kind'] == 'billing':
+            status, body = self._billing(c)
+            return (json.dumps(c, sort_keys=True) if status == 200 else None, [f'billing:{c["route"].split(":")[0]}:{status}'])
         if c['kind'] == 'data':
             status, body = self._data(c)
             n = sum(len(body.get(kk, [])) for kk in ('jobs', 'job_groups', 'batches')) if isinstance(body, dict) else 0
